@@ -284,7 +284,7 @@ fn frame_result(level: u32, n: usize) -> String {
     }
 }
 
-pub const NSPECS: usize = 51;
+pub const NSPECS: usize = 54;
 
 /// performs call spec `i` and renders its result; a panic inside the library is a result too
 pub fn call(i: usize) -> String {
@@ -352,6 +352,25 @@ fn call_inner(i: usize) -> String {
         48 => enc(&new::Item { id: 6, extra: 9 }, 1),
         49 => round(&old::Item { id: 7, name: "seven".into() }),
         50 => round(&new::Item { id: 8, extra: 1 }),
+        // well-formed headers that say something else than the honest ones of the same types: what
+        // they say must not outlive the call
+        51 => dec::<Pt>(&[0x02, 0x08, 0x08, 0x03, 0x02, 0x79, 0xff, 0xff, 0xff, 0xf6, 0, 0, 0, 1]),
+        52 => dec::<Outer>(&{
+            let mut b = desert::serialize_to_byte_vec(&outer(6)).unwrap();
+            // the made-optional position byte of the header: 0xff (position 1) -> 0x00 (position 0)
+            if let Some(p) = b.iter().position(|x| *x == 0xff) {
+                b[p] = 0x00;
+            }
+            b
+        }),
+        53 => tagged_result(desert::deserialize::<Tagged>(&{
+            let mut b = desert::serialize_to_byte_vec(&tagged(0)).unwrap();
+            // "legacy" -> "second": another removed-field name of the same length
+            if let Some(p) = b.windows(6).position(|w| w == b"legacy") {
+                b[p..p + 6].copy_from_slice(b"second");
+            }
+            b
+        })),
         _ => panic!("no call spec {i}"),
     }
 }
